@@ -12,6 +12,8 @@ package server
 
 import (
 	"context"
+	"crypto/tls"
+	"crypto/x509"
 	"fmt"
 	"io"
 	"os"
@@ -27,6 +29,8 @@ import (
 
 	"github.com/casbin/casbin/v2"
 	client "github.com/liftbridge-io/liftbridge-api/v2/go"
+	"google.golang.org/grpc"
+	"google.golang.org/grpc/credentials"
 	"google.golang.org/grpc/metadata"
 )
 
@@ -100,6 +104,8 @@ func (s *vC15Sub) alive() bool {
 
 type vC15Run struct {
 	t       *testing.T
+	grpc    client.APIClient // TLS mode: calls go through a real gRPC/TLS connection
+	certCN  string           // TLS mode: the common name of the client certificate stands for client "alice"
 	srv     *Server
 	id      int
 	dir     string
@@ -119,6 +125,14 @@ func (r *vC15Run) model(real string) string {
 		return real
 	}
 	return strings.TrimPrefix(real, fmt.Sprintf("b%d", r.id))
+}
+
+// who maps a model client to the identity the server sees
+func (r *vC15Run) who(c string) string {
+	if r.certCN != "" && c == "alice" {
+		return r.certCN
+	}
+	return c
 }
 
 func vC15Ctx(clientID string) context.Context {
@@ -185,7 +199,7 @@ func (r *vC15Run) writePolicy(entries [][]string) {
 	var b strings.Builder
 	fmt.Fprintf(&b, "p, probe, probe, v%d-%d\n", r.id, r.version)
 	for _, e := range entries {
-		fmt.Fprintf(&b, "p, %s, %s, %s\n", e[0], r.real(e[1]), e[2])
+		fmt.Fprintf(&b, "p, %s, %s, %s\n", r.who(e[0]), r.real(e[1]), e[2])
 	}
 	if err := os.WriteFile(filepath.Join(r.dir, "policy.csv"), []byte(b.String()), 0o644); err != nil {
 		r.t.Fatalf("INCONCLUSIVE: %v", err)
@@ -225,7 +239,11 @@ func (r *vC15Run) cleanPolicy(pol [][]string) [][]string {
 		if len(e) != 3 || e[0] == "probe" {
 			continue
 		}
-		out = append(out, []string{e[0], r.model(e[1]), e[2]})
+		who := e[0]
+		if r.certCN != "" && who == r.certCN {
+			who = "alice"
+		}
+		out = append(out, []string{who, r.model(e[1]), e[2]})
 	}
 	sort.Slice(out, func(a, b int) bool { return strings.Join(out[a], "|") < strings.Join(out[b], "|") })
 	return out
@@ -358,6 +376,9 @@ func (r *vC15Run) call(c map[string]interface{}) (res string, detail string) {
 		api    = r.srv.api
 		err    error
 	)
+	if r.grpc != nil {
+		return r.callTLS(c)
+	}
 	ctx, cancel := context.WithTimeout(vC15Ctx(who), 3*time.Second)
 	defer cancel()
 	switch m {
@@ -417,6 +438,87 @@ func (r *vC15Run) call(c map[string]interface{}) (res string, detail string) {
 		detail = err.Error()
 	}
 	return vC15Res(err), detail
+}
+
+// callTLS makes the call over gRPC with the client certificate: the client id reaches the handler through
+// AuthzUnaryInterceptor / AuthzStreamInterceptor (server/authz.go), not through a hand-made context.
+func (r *vC15Run) callTLS(c map[string]interface{}) (string, string) {
+	var (
+		m      = vStr(c, "m")
+		stream = r.real(vStr(c, "s"))
+		g      = r.grpc
+		err    error
+	)
+	ctx, cancel := context.WithTimeout(context.Background(), 3*time.Second)
+	defer cancel()
+	switch m {
+	case "CreateStream":
+		_, err = g.CreateStream(ctx, &client.CreateStreamRequest{Name: stream, Subject: stream})
+	case "DeleteStream":
+		_, err = g.DeleteStream(ctx, &client.DeleteStreamRequest{Name: stream})
+	case "PauseStream":
+		_, err = g.PauseStream(ctx, &client.PauseStreamRequest{Name: stream})
+	case "SetStreamReadonly":
+		_, err = g.SetStreamReadonly(ctx, &client.SetStreamReadonlyRequest{Name: stream, Readonly: vBool(c, "ro")})
+	case "FetchMetadata":
+		_, err = g.FetchMetadata(ctx, &client.FetchMetadataRequest{})
+	case "FetchPartitionMetadata":
+		_, err = g.FetchPartitionMetadata(ctx, &client.FetchPartitionMetadataRequest{Stream: stream})
+	case "Publish":
+		_, err = g.Publish(ctx, &client.PublishRequest{Stream: stream, Value: []byte("v"), AckPolicy: client.AckPolicy_LEADER})
+	case "PublishToSubject":
+		sctx, scancel := context.WithTimeout(context.Background(), 400*time.Millisecond)
+		_, err = g.PublishToSubject(sctx, &client.PublishToSubjectRequest{Subject: stream, Value: []byte("v"),
+			AckPolicy: client.AckPolicy_LEADER})
+		scancel()
+	case "SetCursor":
+		_, err = g.SetCursor(ctx, &client.SetCursorRequest{Stream: stream, CursorId: "c1", Offset: 0})
+	case "FetchCursor":
+		_, err = g.FetchCursor(ctx, &client.FetchCursorRequest{Stream: stream, CursorId: "c1"})
+	case "Subscribe":
+		sctx, scancel := context.WithCancel(context.Background())
+		req := &client.SubscribeRequest{Stream: stream, StartPosition: client.StartPosition_NEW_ONLY, Resume: vBool(c, "resume")}
+		if vBool(c, "grp") {
+			req.Consumer = &client.Consumer{GroupId: r.real("g1"), ConsumerId: "alice", GroupEpoch: uint64(vInt(c, "epoch"))}
+		}
+		var sub client.API_SubscribeClient
+		sub, err = g.Subscribe(sctx, req)
+		if err == nil {
+			_, err = sub.Recv() // the empty message that confirms the subscription, or the status
+		}
+		if err == nil {
+			// a subscription that cannot be served ends at once
+			ended := make(chan error, 1)
+			go func() { _, e := sub.Recv(); ended <- e }()
+			select {
+			case err = <-ended:
+				if err == nil {
+					err = fmt.Errorf("unexpected message")
+				}
+			case <-time.After(80 * time.Millisecond):
+			}
+		}
+		if err != nil {
+			scancel()
+		} else {
+			held := &vC15Sub{stream: vStr(c, "s"), group: vBool(c, "grp"), cancel: scancel, done: make(chan struct{})}
+			go func() {
+				for {
+					if _, e := sub.Recv(); e != nil {
+						close(held.done)
+						return
+					}
+				}
+			}()
+			r.subs = append(r.subs, held)
+		}
+	default:
+		return "Unsupported", "not driven over TLS: " + m
+	}
+	if err != nil {
+		return vC15Res(err), err.Error()
+	}
+	return "Ok", ""
 }
 
 func (r *vC15Run) publishAsync(who, stream string) (string, string) {
@@ -566,7 +668,10 @@ func vC15Entries(v interface{}) [][]string {
 	return out
 }
 
-func TestVerifC15(t *testing.T) {
+func TestVerifC15(t *testing.T)    { vC15Main(t, false) }
+func TestVerifC15TLS(t *testing.T) { vC15Main(t, true) }
+
+func vC15Main(t *testing.T, tlsMode bool) {
 	sf := vLoadStimuli(t)
 	tw := vOpenTrace(t)
 	defer tw.Close()
@@ -576,20 +681,60 @@ func TestVerifC15(t *testing.T) {
 	cfg.CursorsStream.Partitions = 1
 	cfg.Groups.ConsumerTimeout = time.Hour
 	cfg.Groups.CoordinatorTimeout = time.Hour
-	srv := vOneNodeServer(t, cfg)
-	defer srv.Stop()
 	dir := filepath.Join(storagePath, "authz")
 	if err := os.MkdirAll(dir, 0o755); err != nil {
 		t.Fatalf("INCONCLUSIVE: %v", err)
 	}
 	os.WriteFile(filepath.Join(dir, "model.conf"), []byte(vC15Model), 0o644)
 	os.WriteFile(filepath.Join(dir, "policy.csv"), []byte("p, probe, probe, v0\n"), 0o644)
-	enf, err := casbin.NewEnforcer(filepath.Join(dir, "model.conf"), filepath.Join(dir, "policy.csv"))
-	if err != nil {
-		t.Fatalf("INCONCLUSIVE: enforcer: %v", err)
+	var (
+		srv    *Server
+		gc     client.APIClient
+		certCN string
+	)
+	if tlsMode {
+		// the server's own set-up: TLS with client certificates and the enforcer built by Server.startAPIServer
+		cfg.TLSCert, cfg.TLSKey = "./configs/certs/server/server-cert.pem", "./configs/certs/server/server-key.pem"
+		cfg.TLSClientAuth, cfg.TLSClientAuthCA = true, "./configs/certs/ca-cert.pem"
+		cfg.TLSClientAuthz = true
+		cfg.TLSClientAuthzModel, cfg.TLSClientAuthzPolicy = filepath.Join(dir, "model.conf"), filepath.Join(dir, "policy.csv")
+		srv = vOneNodeServer(t, cfg)
+		defer srv.Stop()
+		if srv.authzEnforcer == nil {
+			t.Fatalf("INCONCLUSIVE: server did not build an enforcer")
+		}
+		pool := x509.NewCertPool()
+		ca, err := os.ReadFile("./configs/certs/ca-cert.pem")
+		if err != nil {
+			t.Fatalf("INCONCLUSIVE: %v", err)
+		}
+		pool.AppendCertsFromPEM(ca)
+		cert, err := tls.LoadX509KeyPair("./configs/certs/client/client-cert.pem", "./configs/certs/client/client-key.pem")
+		if err != nil {
+			t.Fatalf("INCONCLUSIVE: %v", err)
+		}
+		leaf, err := x509.ParseCertificate(cert.Certificate[0])
+		if err != nil {
+			t.Fatalf("INCONCLUSIVE: %v", err)
+		}
+		certCN = leaf.Subject.CommonName
+		conn, err := grpc.Dial(fmt.Sprintf("localhost:%d", srv.GetListenPort()), grpc.WithTransportCredentials(
+			credentials.NewTLS(&tls.Config{ServerName: "localhost", Certificates: []tls.Certificate{cert}, RootCAs: pool})))
+		if err != nil {
+			t.Fatalf("INCONCLUSIVE: dial: %v", err)
+		}
+		defer conn.Close()
+		gc = client.NewAPIClient(conn)
+	} else {
+		srv = vOneNodeServer(t, cfg)
+		defer srv.Stop()
+		enf, err := casbin.NewEnforcer(filepath.Join(dir, "model.conf"), filepath.Join(dir, "policy.csv"))
+		if err != nil {
+			t.Fatalf("INCONCLUSIVE: enforcer: %v", err)
+		}
+		srv.authzEnforcer = &authzEnforcer{enforcer: enf}
+		srv.config.TLSClientAuthz = true
 	}
-	srv.authzEnforcer = &authzEnforcer{enforcer: enf}
-	srv.config.TLSClientAuthz = true
 	// wait until the cursors stream is served
 	deadline := time.Now().Add(vC15Deadline)
 	for {
@@ -614,7 +759,7 @@ func TestVerifC15(t *testing.T) {
 	tw.Emit(map[string]interface{}{"a": "Methods", "t": 0, "methods": apiMethods})
 
 	for _, b := range sf.Behaviours {
-		r := &vC15Run{t: t, srv: srv, id: b.ID, dir: dir}
+		r := &vC15Run{t: t, srv: srv, id: b.ID, dir: dir, grpc: gc, certCN: certCN}
 		r.setup(b.Cfg)
 		r.writePolicy(vC15Entries(b.Cfg["policy"]))
 		r.reload()
